@@ -97,7 +97,7 @@ class Fw(Family):
                 k += 1
                 if k % stride == 0:
                     yield [0, [[1, "a", f0], [2, "a", f1]]]
-        n = 3000 if tier == "quick" else 60000
+        n = 12000 if tier == "quick" else 200000
         for i in range(n):
             m = i % 4
             if m == 0:   # inside the hypothesis of the proved theorem: acyclic, early, named references
@@ -155,8 +155,8 @@ def gen_dataset(rng, i, shape=None):
     names = rng.sample(CNAMES, ncomp)
     comps = []
     for j, nm in enumerate(names):
-        kind = rng.choice(["f", "f", "f", "i", "c", "t", "u", "d", "p", "l"])
-        if len(shape) > 1 and kind == "c" and rng.random() < 0.5:
+        kind = rng.choice(["f", "f", "f", "i", "c", "C", "t", "u", "d", "p", "l"])
+        if len(shape) > 1 and kind in ("c", "C") and rng.random() < 0.5:
             kind = "f"
         comps.append([kind, nm, rng.randint(0, 99)])
     coords = rng.choice([None, None, "id", ["aff", rng.randint(0, 7)]])
@@ -183,7 +183,7 @@ def ds_info(desc):
             nums.append(nm)
             if k in ("f", "i", "u"):
                 have_num = True
-        elif k == "c":
+        elif k in ("c", "C"):
             cats.append(nm)
         else:
             dts.append(nm)
@@ -475,7 +475,7 @@ class Sess(Family):
 
     def cases(self, tier, rng):
         yield from systematic_sessions(tier)
-        n = 1500 if tier == "quick" else 40000
+        n = 2600 if tier == "quick" else 60000
         for i in range(n):
             c = gen_session(rng)
             if i % 11 == 0:
@@ -565,7 +565,7 @@ def _mentions(case, di):
 
 
 D0 = ["d0", [6], [["f", "x", 1], ["f", "y", 2], ["c", "k", 3], ["c", "k2", 8], ["i", "n", 4], ["t", "t", 5], ["d", "dd", 6], ["p", "pp", 7], ["l", "ll", 9], ["l", "l2", 10], ["u", "uu", 4]], None, 1, 1]
-D1 = ["d1", [6], [["f", "a", 11], ["f", "b", 12], ["i", "n", 14], ["u", "uu", 5], ["c", "k", 13]], "id", 2, 2]
+D1 = ["d1", [6], [["f", "a", 11], ["f", "b", 12], ["i", "n", 14], ["u", "uu", 5], ["c", "k", 13], ["C", "kc", 15]], "id", 2, 2]
 D2 = ["d2", [2, 2, 3], [["f", "x", 21], ["f", "y", 22], ["f", "z", 23], ["i", "n", 24]], ["aff", 1], None, 3]
 D3 = ["d3", [2, 3], [["f", "x", 31], ["f", "y", 33], ["c", "k", 32]], ["aff", 2], 4, 4]
 D4 = ["d4", [2, 3], [["f", "x", 41], ["i", "n", 42]], None, 5, 5]
@@ -654,7 +654,7 @@ class SessFiles(Sess):
     family_tag = "sessf"
 
     def cases(self, tier, rng):
-        n = 150 if tier == "quick" else 3000
+        n = 400 if tier == "quick" else 6000
         fmts = ["csv", "fits-table", "fits-image", "hdf5", "npy"]
         for i in range(n):
             nf = rng.choice([1, 1, 2])
